@@ -139,6 +139,102 @@ pub mod quick {
     int_from_other!(u32_from_bool, u32, FieldValue::Boolean(kani::any()));
 }
 
+/// `Vec<i64>` from a two-element list of (Int64, Uint64): element-wise exact, or an error as soon
+/// as one element does not fit.
+pub fn vec_i64_body() {
+    let a: i64 = kani::any();
+    let b: u64 = kani::any();
+    let l = FieldValue::List(std::sync::Arc::new([FieldValue::Int64(a), FieldValue::Uint64(b)]));
+    let r = <Vec<i64> as Deserialize>::deserialize(l.into_deserializer());
+    let fits = b <= i64::MAX as u64;
+    kani::cover!(!fits, "witness: value not representable in target");
+    let ok = match &r {
+        Ok(v) => fits && v.len() == 2 && v[0] == a && v[1] as i128 == b as i128,
+        Err(_) => !fits,
+    };
+    std::mem::forget(r);
+    assert!(ok, "Vec<i64> decode is element-wise exact or an error");
+}
+
+/// `Vec<u8>` from `[Int64, Int64]`.
+pub fn vec_u8_body() {
+    let a: i64 = kani::any();
+    let b: i64 = kani::any();
+    let l = FieldValue::List(std::sync::Arc::new([FieldValue::Int64(a), FieldValue::Int64(b)]));
+    let r = <Vec<u8> as Deserialize>::deserialize(l.into_deserializer());
+    let fits = a >= 0 && a <= 255 && b >= 0 && b <= 255;
+    kani::cover!(fits, "witness: value representable in target");
+    let ok = match &r {
+        Ok(v) => fits && v.len() == 2 && v[0] as i64 == a && v[1] as i64 == b,
+        Err(_) => !fits,
+    };
+    std::mem::forget(r);
+    assert!(ok, "Vec<u8> decode is element-wise exact or an error");
+}
+
+/// tuple `(i64, u64)` from a two-element list; a list of another length is an error.
+pub fn tuple_body() {
+    let a: i64 = kani::any();
+    let b: u64 = kani::any();
+    let l = FieldValue::List(std::sync::Arc::new([FieldValue::Int64(a), FieldValue::Uint64(b)]));
+    let r = <(i64, u64) as Deserialize>::deserialize(l.into_deserializer());
+    let ok = matches!(&r, Ok((x, y)) if *x == a && *y == b);
+    std::mem::forget(r);
+    let l1 = FieldValue::List(std::sync::Arc::new([FieldValue::Int64(a)]));
+    let r1 = <(i64, u64) as Deserialize>::deserialize(l1.into_deserializer());
+    let short_is_err = r1.is_err();
+    std::mem::forget(r1);
+    assert!(ok, "tuple decode is position-wise exact");
+    assert!(short_is_err, "a list of the wrong length is not a tuple");
+}
+
+/// `String` / `Option<String>` targets from string values of N bytes.
+pub fn string_body<const N: usize>() {
+    let s = FieldValue::String(crate::shapes::any_ascii_arc_str::<N>());
+    let mut bytes = [0u8; 4];
+    if let FieldValue::String(x) = &s {
+        let mut i = 0;
+        while i < N {
+            bytes[i] = x.as_bytes()[i];
+            i += 1;
+        }
+    }
+    let r = <String as Deserialize>::deserialize(s.into_deserializer());
+    let ok = match &r {
+        Ok(v) => {
+            let mut same = v.len() == N;
+            let mut i = 0;
+            while same && i < N {
+                if v.as_bytes()[i] != bytes[i] {
+                    same = false;
+                }
+                i += 1;
+            }
+            same
+        }
+        Err(_) => false,
+    };
+    std::mem::forget(r);
+    assert!(ok, "String decodes to the same bytes");
+}
+
+/// string target from an integer is an error, and vice versa is covered by int_from_other.
+pub fn string_from_int_body() {
+    let r = <String as Deserialize>::deserialize(FieldValue::Int64(kani::any()).into_deserializer());
+    let is_err = r.is_err();
+    std::mem::forget(r);
+    assert!(is_err, "String target from an integer source must be an error");
+}
+
+pub mod containers {
+    use super::*;
+    g!(vec_i64, 6, vec_i64_body(););
+    g!(vec_u8, 6, vec_u8_body(););
+    g!(tuple_i64_u64, 6, tuple_body(););
+    g!(string_targets, 6, string_body::<0>(); string_body::<1>(); string_body::<2>(););
+    g!(string_from_int, 6, string_from_int_body(););
+}
+
 pub mod thorough {
     use super::*;
 
